@@ -342,96 +342,96 @@ func modeSystematic() []*ModeScenario {
 	return out
 }
 
+func TestModesChild(t *testing.T) {
+	childMain(t, func(idx int, raw json.RawMessage, progress func(any)) any {
+		var j schedJob
+		var sc ModeScenario
+		if err := json.Unmarshal(raw, &j); err != nil {
+			t.Fatal(err)
+		}
+		if err := json.Unmarshal(j.Sc, &sc); err != nil {
+			t.Fatal(err)
+		}
+		return runSchedJob(&j, progress, func(ch sim.Chooser) []sim.Ev { return runMode(t, &sc, ch) })
+	})
+}
+
+func modeCrashRun(sc *ModeScenario, output string, stalled bool) []sim.Ev {
+	what := "crashed: " + crashLine(output)
+	if stalled {
+		what = "no progress in real time"
+	}
+	init := sc.Cfg == "autoserver" || sc.Cfg == "server"
+	return []sim.Ev{{"e": "Reset", "cfg": sc.Cfg, "gates": sc.Gates, "handlers": init, "ts": 0}, {"e": "Stuck", "what": what}, {"e": "End"}}
+}
+
 func TestModes(t *testing.T) {
 	e := getEnv(t)
 	rec := newRecorder(t, e, "modes", "one run per (configured mode, sequence of reachability events / stream deliveries / requests, schedule of the library's parked steps); systematic scenarios are explored over their whole choice tree (bounded), random ones under seeded schedules; distinct by event sequence")
 	defer rec.Close(t, e)
+	jobs := []*schedJob{}
+	scs := []*ModeScenario{}
+	addJob := func(sc *ModeScenario, j *schedJob) {
+		j.Sc, _ = json.Marshal(sc)
+		jobs = append(jobs, j)
+		scs = append(scs, sc)
+	}
 	if e.Replay != "" {
 		var wrap struct {
 			Replay struct {
 				Scenario *ModeScenario `json:"scenario"`
 				Choices  []int         `json:"choices"`
+				Seed     int64         `json:"seed"`
 			} `json:"replay"`
 		}
 		if err := readJSON(e.Replay, &wrap); err != nil {
 			t.Fatal(err)
 		}
-		ch := &sim.ReplayChooser{Seq: wrap.Replay.Choices}
-		rec.Record(runMode(t, wrap.Replay.Scenario, ch), map[string]any{"scenario": wrap.Replay.Scenario, "choices": ch.Taken()}, true)
-		return
+		addJob(wrap.Replay.Scenario, &schedJob{Replay: true, Choices: wrap.Replay.Choices, Seed: wrap.Replay.Seed})
+	} else {
+		r := rand.New(rand.NewSource(e.Seed))
+		perTree, nrand := 60, 1500
+		if e.Tier == "thorough" {
+			perTree, nrand = 1500, 30000
+		}
+		if e.Budget > 0 {
+			nrand = e.Budget
+		}
+		for _, sc := range modeSystematic() {
+			addJob(sc, &schedJob{Tree: true, PerTree: perTree})
+		}
+		for i := 0; i < nrand; i++ {
+			addJob(genModeScenario(r), &schedJob{Seed: 1 + r.Int63()})
+		}
 	}
-	r := rand.New(rand.NewSource(e.Seed))
-	perTree, nrand := 60, 1500
-	if e.Tier == "thorough" {
-		perTree, nrand = 1500, 30000
-	}
-	if e.Budget > 0 {
-		nrand = e.Budget
-	}
-	// jobs run in child processes (each runs its bubbles alone); results are recorded in job order
-	jobs := []*modeJob{}
-	for _, sc := range modeSystematic() {
-		jobs = append(jobs, &modeJob{Sc: sc, Tree: true, PerTree: perTree})
-	}
-	for i := 0; i < nrand; i++ {
-		jobs = append(jobs, &modeJob{Sc: genModeScenario(r), Seed: r.Int63()})
-	}
-	results := runChildren(t, e, "TestModesChild", jobs, len(jobs), 12, nil)
+	crashed := map[int]map[string]any{}
+	var cmu sync.Mutex
+	results := runChildren(t, e, "TestModesChild", jobs, len(jobs), 12, func(idx int, info json.RawMessage, output string, stalled bool) any {
+		cmu.Lock()
+		crashed[idx] = schedReplayOf(scs[idx], info)
+		cmu.Unlock()
+		return []schedResult{{Evs: modeCrashRun(scs[idx], output, stalled)}}
+	})
 	for i, raw := range results {
-		var out []modeResult
+		var out []schedResult
 		if raw == nil || json.Unmarshal(raw, &out) != nil {
-			rec.Problem(fmt.Sprintf("job %d produced no result", i))
+			rec.Count("skipped_after_stalls", 1)
 			continue
 		}
-		j := jobs[i]
 		for _, o := range out {
-			rec.Record(o.Evs, map[string]any{"scenario": j.Sc, "choices": o.Choices}, true)
-			if j.Tree {
+			rp := map[string]any{"scenario": scs[i], "choices": o.Choices}
+			if c := crashed[i]; c != nil {
+				rp = c
+			}
+			rec.Record(o.Evs, rp, true)
+			if jobs[i].Tree {
 				rec.Count("systematic", 1)
 				if o.Exhausted {
 					rec.Count("trees_exhausted", 1)
 				}
 			} else {
-				rec.Count("random/"+j.Sc.Cfg, 1)
+				rec.Count("random/"+scs[i].Cfg, 1)
 			}
 		}
 	}
-}
-
-type modeJob struct {
-	Sc      *ModeScenario `json:"sc"`
-	Tree    bool          `json:"tree"`
-	PerTree int           `json:"pertree"`
-	Seed    int64         `json:"seed"`
-}
-
-func TestModesChild(t *testing.T) {
-	childMain(t, func(idx int, raw json.RawMessage) any {
-		var j modeJob
-		if err := json.Unmarshal(raw, &j); err != nil {
-			t.Fatal(err)
-		}
-		out := []modeResult{}
-		if j.Tree {
-			dfs := &sim.DFS{}
-			for k := 0; k < j.PerTree; k++ {
-				evs := runMode(t, j.Sc, dfs)
-				out = append(out, modeResult{evs, dfs.Taken(), false})
-				if !dfs.Next() {
-					out[len(out)-1].Exhausted = true
-					break
-				}
-			}
-		} else {
-			ch := sim.NewRandomChooser(j.Seed)
-			out = append(out, modeResult{runMode(t, j.Sc, ch), ch.Taken(), false})
-		}
-		return out
-	})
-}
-
-type modeResult struct {
-	Evs       []sim.Ev `json:"evs"`
-	Choices   []int    `json:"choices"`
-	Exhausted bool     `json:"exhausted"`
 }
